@@ -196,8 +196,8 @@ static void run_products(Ctx& ctx, const PF& pf, void* pc) {
   }
   // 2. concrete worst-case runs: every ell, three extremal families; measured <= bound and exact modulo q
   const uint64_t xw = pf.kind <= 2 ? 4 : 8, yw = pf.kind <= 2 ? 4 : pf.kind == 3 ? 8 : 16;
-  for (int fam = 0; fam < 3; ++fam) {
-    static const char* fn[] = {"all-maximal", "alternating-max-min", "single-maximal"};
+  for (int fam = 0; fam < 5; ++fam) {
+    static const char* fn[] = {"all-maximal", "alternating-max-min", "single-maximal", "high-halves-maximal", "low-halves-maximal"};
     std::string id = sfmt("worstcase|%s|%s|ell=0..10000", pf.name, fn[fam]);
     if (!ctx.want(id)) continue;
     ctx.begin_case(id);
@@ -206,7 +206,7 @@ static void run_products(Ctx& ctx, const PF& pf, void* pc) {
       uint64_t elems = B.bytes / 32;
       for (uint64_t i = 0; i < elems; ++i) for (int k = 0; k < 4; ++k) {
         uint64_t mx = a_layout ? 0xFFFFFFFFull : ~0ull;
-        uint64_t v = f == 0 ? mx : f == 1 ? ((i & 1) ? 0 : mx) : (i == elems / 2 ? mx : 0);
+        uint64_t v = f == 0 ? mx : f == 1 ? ((i & 1) ? 0 : mx) : f == 2 ? (i == elems / 2 ? mx : 0) : f == 3 ? (a_layout ? 0xFFFF0000ull : 0xFFFFFFFF00000000ull) : (a_layout ? 0xFFFFull : 0xFFFFFFFFull);
         B.as<uint64_t>()[4 * i + k] = v;
       }
     };
@@ -297,6 +297,6 @@ int main(int argc, char** argv) {
                      "operand ranges: any 64-bit lane (NTT, b layout), any 32-bit value (a, c layouts), ell <= 10000"};
   return ctx.finish("model_checking",
                     "abstract states = (transform, n, prime, stage) for n = 2^0..2^16 both directions, plus (product kernel, ref/avx2, ell, prime) for every ell in 0..10000; each side condition (no negative lazy subtraction, "
-                    "no 64-bit overflow, 32-bit multiplier operands) is an invariant; real runs: 6 extremal lane patterns per (n, direction) traced through interposed stage calls, products run for every ell on 3 extremal families",
+                    "no 64-bit overflow, 32-bit multiplier operands) is an invariant; real runs: 6 extremal lane patterns per (n, direction) traced through interposed stage calls, products run for every ell on 5 extremal families",
                     true, ex);
 }
